@@ -35,6 +35,13 @@ def run():
         for qos in (["reliable"] if quick else ["reliable", "unreliable", "partial"]):
             for k, sc in enumerate(scripts):
                 scs.append(U.to_scenario("C01/%s/%s/%d" % (pol, qos, k), sc, policy=pol, qos=qos))
+    # coupling spec <-> monitor (UpstreamMon.tla): the monitor MonC01 is fed, inside TLC, with the event stream an observer derives from
+    # every behaviour of Upstream.tla; its safety clauses never fire and its final verdict is empty in every terminal state
+    for pol in (["none"] if quick else ["none", "size", "immediate"]):
+        cfg = U.write_cfg("UpstreamMon_c01_%s.cfg" % pol, policy=pol, maxw=2, sizes=(1, 3) if pol == "size" else (1,), dups=1, acks=2,
+                          flushers=("F1",), mon=True, invs="MonSafetyHolds MonFinalHolds MonPremiseMet")
+        ctx.l1("UpstreamMon", cfg, timeout=1500)
+        os.remove(os.path.join(SPEC, cfg))
     # gated family: the transport completes concurrent chunk writes in a scripted order (hold chunk j while the later
     # ones go through and are acknowledged, then Close, then release) -- the schedule of the TLC counterexample to
     # NoChunkAfterClose found with CloseShortcut = TRUE (fixed in /repo, kept as regression)
